@@ -286,6 +286,10 @@ namespace detail
 	{
 		GLM_STATIC_ASSERT(std::numeric_limits<T>::is_integer, "'bitfieldInsert' only accept integer values");
 
+		// A zero-width field inserts nothing; Offset may then equal the width, which must not reach the shifts below
+		if(Bits <= 0)
+			return Base;
+
 		// Build the mask and move the bits in the unsigned domain: shifting negative signed values left is undefined
 		typedef typename detail::make_unsigned<T>::type U;
 		U const Mask = static_cast<U>(detail::mask(static_cast<U>(Bits)) << Offset);
